@@ -7,6 +7,7 @@ import DialsModel.Model.CaseConv
 import DialsModel.Model.RuntimeIO
 import DialsModel.Model.OverlayIO
 import DialsModel.Model.HeapIO
+import DialsModel.Model.ParseIO
 
 open Dials Dials.Proto
 
@@ -53,6 +54,7 @@ def handle (ss : Session) (line : String) : Session × String :=
   | "cc" :: rest => (ss, handleCC rest)
   | "ov" :: rest => (ss, Overlay.handleOv rest)
   | "hp" :: rest => (ss, Heap.handleHp rest)
+  | "ps" :: rest => (ss, Parse.handlePs rest)
   | "rt" :: rest =>
     let (st, out) := Runtime.handleRt ss.rt rest
     ({ ss with rt := st }, (out.replace "\n" " "))
